@@ -33,6 +33,40 @@ def validate(ctx, res, n_quick=1500, n_thorough=40000):
             if not rt: unsound.append(d)
         elif rt:
             strict_gap += 1
+    # the Lean model of msdparser itself (Model/MsdParser.lean) against the real lexer/parser/serializer
+    from msdparser import MSDParserError
+    texts = []
+    alpha = ALPHA + ["//", "\ufeff", "\t", "x", "\\:", "\\#"]
+    for _ in range(ctx.scale(1500, 40000)):
+        t = "".join(rng.choice(alpha) for _ in range(rng.randrange(0, 14)))
+        n = len(t) - len(t.rstrip("\\"))
+        if n % 2 == 1: t = t[:-1]          # texts ending in an unpaired backslash: excluded (lexer assertion, known finding)
+        texts.append(t)
+    texts += [objs.rand_text(rng) for _ in range(ctx.scale(150, 3000))]
+    jobs = [(t, st) for t in texts for st in (True, False)]
+    model = ctx.lean.eval_sharded([{"op": "msd.parse", "text": t, "strict": st} for t, st in jobs])
+    bad_model = 0
+    for (t, st), m in zip(jobs, model):
+        ps = []
+        try:
+            for p in parse_msd(string=t, ignore_stray_text=not st): ps.append(list(p.components))
+            real = {"params": ps, "tokerr": False}
+        except MSDParserError:
+            real = {"params": ps, "tokerr": True}
+        except AssertionError:
+            real = "AssertionError"
+        if real != m:
+            bad_model += 1
+            res.tie_break("msd.parse (Lean model of msdparser vs the real msdparser)", {"text": t, "strict": st}, real, m)
+    rend = ctx.lean.eval_sharded([{"op": "msd.render", "param": c} for d in docs[:400] for c in d])
+    i = 0
+    for d in docs[:400]:
+        for c in d:
+            if rend[i] != str(MSDParameter(tuple(c))):
+                bad_model += 1
+                res.tie_break("msd.render (Lean model vs MSDParameter.__str__)", {"param": c}, str(MSDParameter(tuple(c))), rend[i])
+            i += 1
+    res.stats["msdparser_model"] = {"texts_x_strict": len(jobs), "render_params": i, "disagreements": bad_model}
     res.stats["msd_contract"] = {"documents": len(docs), "judged_safe": n_safe, "safe_but_no_roundtrip": len(unsound),
                                  "unsafe_but_roundtrips(over-strict)": strict_gap, "examples_unsound": unsound[:3]}
     return not unsound
